@@ -322,6 +322,13 @@ def run(chk: Check, tier: str):
         machinery_failure(f"MC_Budget: {res.violated} violated by the specification itself\n{res.out[-2000:]}")
     tlc.require_ok(res, "MC_Budget")
     chk.add_tlc("MC_Budget", res, "all budget triples over {0,1,5}s x preprocessing durations x expiry placements")
+    # unbounded companion: NoUnflaggedWrong and NoFaultRaise follow from an inductive invariant of Budget.tla (TLAPS)
+    import tlaps
+
+    pr = tlaps.prove("BudgetProof")
+    chk.cov["tlaps_BudgetProof"] = {k: pr[k] for k in ("available", "proved", "refuted", "obligations", "wall_s")}
+    if pr["refuted"]:
+        machinery_failure("tlapm rejects an obligation of spec/BudgetProof.tla:\n" + pr["out"])
     # ---- fault enumeration on the real code
     n = 14 if tier == "quick" else 400
     scen = []
